@@ -100,7 +100,7 @@ ssnode_dfs (
     /* Supernode > 1, then make a copy of the subscripts for pruning */
     if ( jcol < kcol ) {
 	new_next = nextl + (nextl - xlsub[jcol]);
-	while ( new_next > nzlmax ) {
+	while ( new_next >= nzlmax ) {
 	    mem_error = sLUMemXpand(jcol, nextl, LSUB, &nzlmax, Glu);
 	    if ( mem_error ) return (mem_error);
 	    lsub = Glu->lsub;
